@@ -44,6 +44,22 @@ for f in sorted(glob.glob('/verif/seeded/*/meta.json')):
     out.append(f"| `{name}` | {prop} | {short(m.get('summary'), 230)} | {short(m.get('needs_to_manifest'), 200)} | {first} | {now}{' (also ' + ', '.join(others) + ')' if others else ''} | `{sig}` |")
 out.append('')
 out.append(f"{n} seeded changes kept; {miss_first} were missed by the quick tier as it stood when they arrived. Every miss was traced to a cause and the check strengthened (see the *As built* notes in §4 and §9); none was made to pass by loosening an oracle.")
+out.append('')
+out.append('### 10.3 Changes that keep every property (false-alarm experiment)\n')
+out.append('Six sub-agents were given the 20 property statements and asked for the opposite of a seeded defect: realistic, non-trivial changes of behaviour or internal structure that keep all properties true (`/verif/benign/b1..b6`: patch and the agent\'s notes). `tools/run_benign.sh` applies each in a scratch worktree and runs the checks of the touched area; **every check must stay silent**.\n')
+out.append('| patch | area | what changes (all of it allowed by the properties) |')
+out.append('|---|---|---|')
+out.append('| b1 | betting engine | VPIP bookkeeping; new error values for wrong-phase operations; pots republished after the blinds and at every turn; `last_action` records what was really posted / an over-sized bet as all-in; first-to-act lookup refactored |')
+out.append('| b2 | pots | pots published live after every action; a zero contribution creates no level; levels maintained incrementally in deterministic order; folded players\' entries carry what they paid into that pot |')
+out.append('| b3 | settlement | ranking rebuilt (ties in seat order); one odd-chip cursor carried across levels and pots; scores kept in a map; folded players in a "mucked" group instead of score 0; `Winners` list every winner with the full share |')
+out.append('| b4 | seat manager | `Join(any)` deterministic; out-of-range ids answered with another error value; `Reset()` re-binds the positions; position logic rewritten as one ring walk; `GetNormalizeSeats` wraps |')
+out.append('| b5 | regulator | deterministic choice of the table to top up; release count from one scan; requirement sheet rewritten; one queue-pop helper; a releasing table clears its `Required` |')
+out.append('| b6 | evaluator | completely different (bit-packed) score encoding with the same order; reported cards ordered by significance; which of several equal selections is reported; lexicographic candidate enumeration; a correctly keyed memo cache |')
+out.append('')
+out.append('Result: silent on all six (quick tier), also after the later strengthenings of the checks. Two oracles were loosened *because of this experiment\'s reasoning, before it ran*: C01 accepts pots republished between the fixed publication points, C04\'s carried-out-action clause only judges action names of the offer vocabulary; C14 accepts hole cards handed out before the first street.')
+out.append('')
+out.append('### 10.4 Silence on the unchanged tree\n')
+out.append('Quick tier at `VERIF_SEED` 1..7 for all 20 properties (140 runs, machine busy with other runs): 140 x OK. Thorough tier at seed 1: 20 x OK (1-11 min each under load). `vp check` (fresh copy of the sandbox, `setup_cmd`, every quick command): nothing needed attention.')
 s = open('/verif/DESIGN.md').read()
 a = s.index('<!-- SENSITIVITY-TABLES-BEGIN -->') + len('<!-- SENSITIVITY-TABLES-BEGIN -->')
 b = s.index('<!-- SENSITIVITY-TABLES-END -->')
